@@ -212,6 +212,7 @@ static void sched_schedule_thread(struct scheduler_base *s, thread_data *thrd, s
 {
   VX_ASSERT(lin && PENDINGISH(TS_STATE(lin_new)), "schedule_thread only after the own CAS published a pending state");
   VX_ASSERT(!vx_exc, "no scheduling while an exception is in flight");
+  VX_ASSERT(!allow_fallback, "a woken task is placed with allow_fallback == false: select_active_pu then searches until it holds the PU mutex of an awake worker; with fallback one failed try_lock pass returns the hinted worker even if it is asleep (the task is then stuck on a sleeping worker's queue)");
   if (g_sched < 2) g_sched++;
   g_s_on_ok = (s == g_td.scheduler_base_); g_s_thrd_is_T = (thrd == &g_td); g_s_hint = hint; g_s_fallback = allow_fallback; g_s_prio = prio;
 }
